@@ -196,6 +196,26 @@ class FnCheck(Check):
         """Add obligations for one terminal path with ex.oblige(st, name, goal)."""
 
     replay_fn = None
+    absence = None
+
+    def absence_obligations(self):
+        """Names of obligations that exist only on forbidden paths; default: every name used with a constant-False
+        goal in `post` of this class (found by scanning the source of the contract)."""
+        if self.absence is not None:
+            return self.absence
+        import inspect
+        import re
+        names = set()
+        for klass in type(self).__mro__:
+            if klass in (FnCheck, Check, object):
+                continue
+            try:
+                src = inspect.getsource(klass)
+            except (OSError, TypeError):
+                continue
+            for m in re.finditer(r"oblige\(\s*\w+,\s*'([\w.]+)',\s*z3\.BoolVal\(False\)", src):
+                names.add(m.group(1))
+        return sorted(names)
 
     def witness_exprs(self, st: State, b: Build) -> dict:
         """name -> z3 term whose model value is part of the concrete witness."""
@@ -229,6 +249,8 @@ class FnCheck(Check):
         ctx.float_model = self.float_model
         ctx.exc_attr_nonnull = set(getattr(self, 'exc_attr_nonnull', ()))
         ctx.membership = {}
+        ctx.map_functions = {}
+        ctx.module_constants = dict(getattr(self, 'module_constants', {}))
         ex = Executor(ctx)
         ctx.callees = self.callees(ex)
         ctx.loops = self.loops(ex)
@@ -261,6 +283,12 @@ class FnCheck(Check):
             except Exception:  # noqa: BLE001
                 vc.syms = {}
             vcs.append(vc)
+        # obligations that only materialise on forbidden paths (e.g. 'never_raises') are always listed, so that the
+        # recorded baseline knows them as proved when no such path exists
+        have = {ob.name for ob in ctx.obligations}
+        for n in self.absence_obligations():
+            if n not in have:
+                vcs.append(VC(f'{self.id}.{n}', [], z3.BoolVal(True), 'absence', {'note': 'no such path'}))
         # cover: at least one terminal path must be reachable (anti-vacuity)
         normal = [s for s, oc in outcomes if oc[0] == 'ret']
         cover_pcs = normal or [s for s, _ in outcomes]
